@@ -18,6 +18,10 @@ pub struct Case {
     pub checks: bool,
     /// obtain the iterator from a start tag read by the reader instead of Attributes::new/html
     pub via_reader: bool,
+    /// bit k set: before the k-th call of next() (k < 16) the current setting is asserted again
+    /// with `with_checks(checks)` - a call that must not change anything
+    #[serde(default)]
+    pub reassert: u16,
 }
 
 pub const F4: &str = "F4-duplicate-recovery";
@@ -34,9 +38,14 @@ pub fn info() -> PropInfo {
     }
 }
 
-fn collect(mut it: Attributes, cap: usize) -> Result<Vec<Item>, String> {
+fn collect(mut it: Attributes, cap: usize, checks: bool, reassert: u16) -> Result<Vec<Item>, String> {
     let mut out = vec![];
+    let mut k = 0;
     loop {
+        if k < 16 && reassert >> k & 1 == 1 {
+            it.with_checks(checks);
+        }
+        k += 1;
         match it.next() {
             None => break,
             Some(Ok(a)) => out.push(Item::Attr(a.key.as_ref().to_vec(), a.value.to_vec())),
@@ -71,14 +80,14 @@ pub fn check(c: &Case) -> Verdict {
             Ok(Event::Start(e)) if &*e == bytes => {
                 let mut it = if c.html { e.html_attributes() } else { e.attributes() };
                 it.with_checks(c.checks);
-                collect(it, cap)
+                collect(it, cap, c.checks, c.reassert)
             }
             _ => return Verdict::excluded("content-is-not-one-start-tag"),
         }
     } else {
         let mut it = if c.html { Attributes::html(s, 1) } else { Attributes::new(s, 1) };
         it.with_checks(c.checks);
-        collect(it, cap)
+        collect(it, cap, c.checks, c.reassert)
     };
     let got = match got {
         Ok(g) => g,
@@ -110,6 +119,15 @@ pub fn check(c: &Case) -> Verdict {
         if matches!(want[f], Item::Err(quick_xml::events::attributes::AttrError::Duplicated(..))) && good_after {
             v.classes.push("good-attribute-after-duplicate");
         }
+    }
+    if c.reassert != 0 {
+        v.classes.push("setting-asserted-again-between-calls");
+    }
+    if want.len() >= 20 {
+        v.classes.push(">=20-attributes");
+    }
+    if bytes.len() >= 128 {
+        v.classes.push("tag-content->=128-bytes");
     }
     if got != want {
         v.nontrivial = true;
@@ -143,9 +161,17 @@ struct GenAttr {
     lead: u8,
 }
 
-const KEYS: &[&str] = &["a", "b", "ab", "k", "a:b", "xmlns", "xmlns:p", "K"];
+const KEYS: &[&str] = &[
+    "a", "b", "ab", "k", "a:b", "xmlns", "xmlns:p", "K",
+    // long keys (block-wise scanners), keys that share long prefixes
+    "k234567890123456", "k2345678901234567", "a-key-that-is-longer-than-thirty-two-bytes", "a-key-that-is-longer-than-thirty-two-bytez",
+    "k0", "k1", "k2", "k3", "k4", "k5", "k6", "k7", "k8", "k9", "k10", "k11", "k12", "k13", "k14", "k15", "k16", "k17", "k18", "k19",
+];
 const SPACES: &[&str] = &["", "", " ", "\t", " \n "];
-const VALUES: &[&str] = &["", "v", "x y", " lead", "trail ", "a=b", ">", "it's", "say \"hi\"", "a b=\"c\" d", "&amp;", "/"];
+const VALUES: &[&str] = &[
+    "", "v", "x y", " lead", "trail ", "a=b", ">", "it's", "say \"hi\"", "a b=\"c\" d", "&amp;", "/",
+    "0123456789abcde", "0123456789abcdef", "0123456789abcdef0", "a value that is longer than thirty-two bytes =\"x\"", "a value of more than sixty-four bytes, with an apostrophe ' and > and = inside it ...",
+];
 
 fn render(attrs: &[GenAttr]) -> String {
     let mut s = String::from("t");
@@ -201,7 +227,7 @@ fn render(attrs: &[GenAttr]) -> String {
 }
 
 fn attr_strategy() -> impl Strategy<Value = GenAttr> {
-    (0u8..8, 0u8..5, 0u8..5, 0u8..2, 0u8..12, prop_oneof![6 => Just(0u8), 1 => Just(1u8), 1 => Just(2u8), 1 => Just(3u8), 1 => Just(4u8)], 0u8..6).prop_map(|(key, sp1, sp2, quote, value, fault, lead)| GenAttr { key, sp1, sp2, quote, value, fault, lead })
+    (prop_oneof![3 => 0u8..8, 1 => 8u8..32], 0u8..5, 0u8..5, 0u8..2, prop_oneof![4 => 0u8..12, 1 => 12u8..17], prop_oneof![6 => Just(0u8), 1 => Just(1u8), 1 => Just(2u8), 1 => Just(3u8), 1 => Just(4u8)], 0u8..6).prop_map(|(key, sp1, sp2, quote, value, fault, lead)| GenAttr { key, sp1, sp2, quote, value, fault, lead })
 }
 
 fn run(ctx: &Ctx) {
@@ -214,7 +240,7 @@ fn run(ctx: &Ctx) {
         |i| {
             let mut content = vec![b't'];
             content.extend(crate::gen::exh_bytes(ALPHA, i / 4));
-            Some(Case { content: B(content), html: i % 2 == 1, checks: (i / 2) % 2 == 1, via_reader: false })
+            Some(Case { content: B(content), html: i % 2 == 1, checks: (i / 2) % 2 == 1, via_reader: false, reassert: if i % 7 == 3 { (i / 7) as u16 } else { 0 } })
         },
         check,
     );
@@ -227,7 +253,7 @@ fn run(ctx: &Ctx) {
         |i| {
             let mut content = vec![b't'];
             content.extend(crate::gen::exh_bytes(ALPHA2, i / 4));
-            Some(Case { content: B(content), html: i % 2 == 1, checks: (i / 2) % 2 == 1, via_reader: false })
+            Some(Case { content: B(content), html: i % 2 == 1, checks: (i / 2) % 2 == 1, via_reader: false, reassert: if i % 7 == 3 { (i / 7) as u16 } else { 0 } })
         },
         check,
     );
@@ -239,11 +265,11 @@ fn run(ctx: &Ctx) {
         |i| {
             let mut content = vec![b't'];
             content.extend(crate::gen::exh_bytes(ALPHA, i / 4));
-            Some(Case { content: B(content), html: i % 2 == 1, checks: (i / 2) % 2 == 1, via_reader: true })
+            Some(Case { content: B(content), html: i % 2 == 1, checks: (i / 2) % 2 == 1, via_reader: true, reassert: if i % 7 == 3 { (i / 7) as u16 } else { 0 } })
         },
         check,
     );
-    let strat = (prop::collection::vec(attr_strategy(), 1..8), any::<bool>(), any::<bool>(), any::<bool>(), prop::option::of((any::<u16>(), any::<u16>()))).prop_map(|(attrs, html, checks, via_reader, dup)| {
+    let strat = (prop_oneof![30 => prop::collection::vec(attr_strategy(), 1..8), 1 => prop::collection::vec(attr_strategy(), 20..50)], any::<bool>(), any::<bool>(), any::<bool>(), prop::option::of((any::<u16>(), any::<u16>())), prop_oneof![2 => Just(0u16), 1 => any::<u16>()]).prop_map(|(attrs, html, checks, via_reader, dup, reassert)| {
         let mut attrs = attrs;
         // inject a repeated key: copy the key of one attribute onto another
         if let Some((a, b)) = dup {
@@ -251,7 +277,7 @@ fn run(ctx: &Ctx) {
             let k = attrs[ia].key;
             attrs[ib].key = k;
         }
-        Case { content: B(render(&attrs).into_bytes()), html, checks, via_reader }
+        Case { content: B(render(&attrs).into_bytes()), html, checks, via_reader, reassert }
     });
     ctx.run_proptest("generated-attribute-lists-with-faults", ctx.tier.pick(2_000_000, 12_000_000), strat, check);
 }
